@@ -21,7 +21,7 @@ FLOORS = {
               'trans:number->blank': 20, 'trans:0->FALSE': 3, 'trans:1->TRUE': 3,
               'trans:blank->number': 10, 'write_before_dependant_built': 20,
               'cfg:mem': 20, 'cfg:xlsx': 20, 'cfg:yml': 5, 'cfg:json': 5, 'cfg:pkl': 5,
-              'dependant_compares_after_write': 1000},
+              'dependant_compares_after_write': 1000, 'failed_builds': 15},
     'thorough': {'histories': 3000, 'compares': 100000, 'trans:0->FALSE': 50, 'trans:1->TRUE': 50,
                  'trans:number->blank': 300, 'trans:blank->number': 200,
                  'write_before_dependant_built': 300, 'cfg:xlsx': 300, 'cfg:pkl': 100},
@@ -54,6 +54,7 @@ class Run:
         self.init_exc = [a for a, o in init.items() if o[0] == 'x']
         self.model = hist.Recorder(hist.obtain(config, spec, tmpdir, 'm', init), config)
         self.all_cells = wb.all_addresses(spec)
+        self.has_poison = False       # a model holding a cell that cannot be built cannot be saved and loaded
         sd = dict(spec['sheets']).get(wbgen.SD) or {'A1': 0}
         self.sd_max = (max(wb.split_coord(c)[0] for c in sd), max(wb.split_coord(c)[1] for c in sd))
 
@@ -230,7 +231,7 @@ class Run:
                 if v is None or c > self.sd_max[0] or r_ > self.sd_max[1]:
                     return ('eval', a)
             return ('set', a, v)
-        if r < 0.50 and self.config != 'xlsx' and len(self.ops) > 2:
+        if r < 0.50 and self.config != 'xlsx' and len(self.ops) > 2 and not self.has_poison:
             return ('reload', rng.choice(['yml', 'json', 'pkl']))
         if r < 0.54:
             # a range node whose cells are all plain inputs of a main sheet: written in one call
@@ -294,7 +295,26 @@ def _py_equal(a, b):
 
 
 def one_history(ctx, spec, meta, config, eager, rng=None, ops=None, n_ops=None):
-    run = Run(ctx, spec, meta, config, eager, ctx.tmpdir)
+    poison = spec.get('poison')
+    if poison:
+        # the model sees an evaluate that fails while the graph is being built; the oracle's workbooks do not
+        # contain that cell (a fresh compile evaluating the other cells never meets it)
+        clean = dict(spec, sheets=[[s, {c: v for c, v in cells.items() if wb.addr(s, c) != poison}]
+                                   for s, cells in spec['sheets']])
+        clean.pop('poison')
+        run = Run(ctx, clean, meta, config, eager, ctx.tmpdir)
+        if not run.init_exc:
+            if config in ('mem', 'xlsx'):
+                full = dict(spec)
+                full.pop('poison')
+                init = wb.fresh_values(clean)
+                run.model = hist.Recorder(hist.obtain(config, full, ctx.tmpdir, 'm', init), config)
+                out = run.model.evaluate(poison)
+                run.ops.append(['eval-poison', poison])
+                run.has_poison = True
+                ctx.count('failed_builds' if out[0] == 'x' else 'poison_did_not_fail')
+    else:
+        run = Run(ctx, spec, meta, config, eager, ctx.tmpdir)
     if run.init_exc:
         ctx.count('skipped_workbooks_with_failing_cells')
         return None
@@ -305,7 +325,7 @@ def one_history(ctx, spec, meta, config, eager, rng=None, ops=None, n_ops=None):
                 break
     else:
         for op in ops:
-            if op[0] != 'final':
+            if op[0] not in ('final', 'eval-poison'):
                 run.apply(op)
     if not run.found:
         run.finish()
@@ -359,6 +379,14 @@ def run(ctx):
         ctx.count('shape:' + str(len(meta['formulas'])), 0)
         config = CONFIGS[i % len(CONFIGS)]
         eager = rng.random() < 0.5
+        first_sheet = spec['sheets'][0][0]
+        fcells = [a for a in meta['formulas'] if a.startswith(first_sheet + '!') and
+                  meta['formulas'][a]['form'] not in ('cse', 'cse-consumer')]
+        if i % 5 == 0 and config in ('mem', 'xlsx') and len(fcells) >= 2:
+            p1, p2 = rng.sample(fcells, 2)
+            spec = dict(spec, sheets=[[s_, dict(c)] for s_, c in spec['sheets']])
+            spec['sheets'][0][1]['A20'] = f'={p1.rsplit("!", 1)[1]}+{p2.rsplit("!", 1)[1]}+[1]Other!A1'
+            spec['poison'] = f'{first_sheet}!A20'
         one_history(ctx, spec, meta, config, eager, rng=rng, n_ops=rng.randint(12, 25))
 
 
